@@ -64,7 +64,7 @@ type Contract struct {
 	Each      []string // lemma parameters ranging over all declared constants of their type
 	UseBody   []string // callees whose bodies are executed in this unit instead of their contracts
 	AbstractRem bool   // the % operator is uninterpreted in this unit (reasoned about through `uses` lemmas)
-	Cases     []Clause // proof hint: postconditions are proved separately under each condition and its negation (entry state)
+	Partitions [][]Clause // proof hint: postconditions are proved separately in every cell of each partition (conditions over the entry state)
 	Preserves []Clause // locations inside the modifies set that are nevertheless unchanged
 	Uses      []string // lemmas whose (spec-level) statements are assumed, quantified over their parameters
 	Hide      []string // package-level variables whose contents are hidden in this unit (known only through `uses` lemmas)
@@ -555,11 +555,17 @@ func ParseContracts(fset *token.FileSet, filename string, src []byte, cs *Contra
 			case "abstractrem":
 				cur.AbstractRem = true
 			case "cases":
-				c, err := mkClause(rest)
-				if err != nil {
-					return err
+				// cases e                      -> two cells: e, !e
+				// cases e1 else e2 else e3     -> four cells: e1; !e1&&e2; !e1&&!e2&&e3; none of them
+				var chain []Clause
+				for _, part := range strings.Split(rest, " else ") {
+					c, err := mkClause(strings.TrimSpace(part))
+					if err != nil {
+						return err
+					}
+					chain = append(chain, c)
 				}
-				cur.Cases = append(cur.Cases, c)
+				cur.Partitions = append(cur.Partitions, chain)
 			case "preserves":
 				for _, part := range splitTopLevel(rest) {
 					c, err := mkClause(part)
